@@ -4,7 +4,7 @@
     (HailG.C37.Gen): Double is modelled by exact rationals, Int by 32-bit integers, an exception or a non-finite result is
     [None]. Not covered: floating-point rounding, the stream cut-offs (1e-16) and tolerances (1e-12), the commons-math
     distribution functions (pchisqtail, HypergeometricDistribution), uniroot; nothing of the engine is executed. *)
-From HailV Require Import Common.Prelude CallPacking.Model Stats.Model Stats.Pipeline Stats.Lemmas Stats.LemmasLH.
+From HailV Require Import Common.Prelude CallPacking.Model Stats.Model Stats.Pipeline Stats.Lemmas Stats.LemmasLH Stats.LemmasCdf.
 From Coq Require Import QArith.
 From HailG Require Import C37.Gen.
 Open Scope Z_scope.
@@ -103,3 +103,51 @@ Proof.
   intros dist nA x Hn Ht Hs. split; [apply rightMidP_unit; assumption | split; [apply (leftMidP_unit dist Hn Ht nA Hs) | apply exact_midp_unit; assumption]].
 Qed.
 Print Assumptions C37_midp_in_unit_interval.
+
+(** The class methods WITH their branch structure (all generated from LeveneHaldane.scala, callees not opaque): for every class
+    instance (nA, mode, pRU, pLU, pN) that satisfies the class invariant [lh_state_wf] - mode in the support and of nA's parity,
+    R / L the prefixes of pRU / pLU that reach the two ends of the support, both starting with the literal 1.0, non-negative, and
+    pN = sum R + sum L - 1 - and with [dist] the distribution it stands for (outcome mode + 2i has mass R[i]/pN, outcome
+    mode - 2i has mass L[i]/pN):
+      dist is a probability distribution;
+      cumulativeProbability(n0, n1) = P(n0 < X <= n1)            for every -1 <= n0 and n1 <= nA (either parity, all four branches);
+      probability(x) = P(X = x)                                   for every Int x;
+      survivalFunction(n0) = P(X > n0),  cumulativeProbability(n1) = P(X <= n1);
+      rightMidP(x) = P(X > x) + P(X = x)/2 (the one-sided p-value) and leftMidP(x) = P(X <= x) - P(X = x)/2, both in [0, 1];
+      the hand model of exactMidP is in [0, 1].
+    Exact rational sums: the round-off cut-offs takeWhile(_ > ... 1e-16) are the identity in the model (cut-offs are IGNORED);
+    Int arithmetic is 32-bit (nA < 2^30 keeps it from wrapping). *)
+Theorem C37_lh_class_methods : forall (nA mode : Z) (pRU pLU : stream) (pN : Q) (R L : list Q),
+  nA < 2 ^ 30 -> lh_state_wf nA (mode, R, L, pN) = true -> prefix_of pRU R -> prefix_of pLU L ->
+  let dist := lh_norm mode R L pN in
+  (Forall (fun vp => 0 <= snd vp)%Q dist /\ (total dist == 1)%Q) /\
+  (forall n0 n1, -1 <= n0 -> n1 <= nA -> - 2 ^ 31 <= n1 ->
+     exists v, LH_cdf2 nA mode pRU pLU pN n0 n1 = Some v /\ (v == mass dist (fun y => (n0 <? y) && (y <=? n1)))%Q) /\
+  (forall x, - 2 ^ 31 <= x < 2 ^ 31 ->
+     exists v, LH_probability nA mode pRU pLU pN x = Some v /\ (v == mass dist (fun y => y =? x))%Q) /\
+  (forall n0, -1 <= n0 -> exists v, LH_survival nA mode pRU pLU pN n0 = Some v /\ (v == mass dist (fun y => n0 <? y))%Q) /\
+  (forall n1, - 2 ^ 31 <= n1 <= nA -> exists v, LH_cdf1 nA mode pRU pLU pN n1 = Some v /\ (v == mass dist (fun y => y <=? n1))%Q) /\
+  (forall x, -1 <= x < 2 ^ 31 ->
+     exists v, LH_rightMidP nA mode pRU pLU pN x = Some v /\
+               (v == mass dist (fun y => x <? y) + (1 # 2) * mass dist (fun y => y =? x))%Q /\ (0 <= v <= 1)%Q) /\
+  (forall x, - 2 ^ 31 <= x <= nA ->
+     exists v, LH_leftMidP nA mode pRU pLU pN x = Some v /\
+               (v == mass dist (fun y => y <=? x) - (1 # 2) * mass dist (fun y => y =? x))%Q /\ (0 <= v <= 1)%Q) /\
+  (forall x, 0 <= exact_midp dist x <= 1)%Q.
+Proof. exact lh_methods_ok. Qed.
+Print Assumptions C37_lh_class_methods.
+
+(** ... and the evaluation used by the check (streams given by their prefixes) is an instance: [s_of_list l] has prefix [l]. *)
+Theorem C37_lh_prefix_streams : forall l : list Q, prefix_of (s_of_list l) l.
+Proof. exact prefix_of_list. Qed.
+Print Assumptions C37_lh_prefix_streams.
+
+(** hardyWeinbergTest returns LH.rightMidP(nHet) for the one-sided test and LH.exactMidP(nHet) otherwise. *)
+Theorem C37_hwe_pvalue_dispatch : forall (right_midp exact_midp_f : Z -> option Q) one_sided x,
+  hwe_pvalue right_midp exact_midp_f one_sided x = if one_sided then right_midp x else exact_midp_f x.
+Proof. exact hwe_pvalue_ok. Qed.
+Print Assumptions C37_hwe_pvalue_dispatch.
+
+(** An instance satisfying the hypotheses: LeveneHaldane(3, 3) - mode 1, pRU = 1, 2/3, ..., pLU = 1, ..., pN = 5/3. *)
+Example C37_lh_class_methods_satisfiable : lh_state_wf 3 (1, [1%Q; (2 # 3)%Q], [1%Q], (5 # 3)%Q) = true.
+Proof. vm_compute. reflexivity. Qed.
